@@ -202,11 +202,47 @@ def run(ctx: Ctx) -> None:
                     add("equal", f"reshaped-grid:{what}" + ("" if container == "float-array" else f":{container}"),
                         codes=[code(after[k]), code(fresh[k])], tol=50)
 
+    def linked_move(kind, pts, addressing, what):
+        # a point of the first cell leads a point that only the SECOND cell has (TranslationLink): after the leader was moved
+        # through GridBase.update() every cell's value - the follower's cell included - is that of a grid built anew on the
+        # grid's points (the value depends on the shape, not on how the points got there)
+        from classy_blocks.optimize.links import TranslationLink
+        only_first = [i for i in addressing[0] if i not in addressing[1]]
+        only_second = [i for i in addressing[1] if i not in addressing[0]]
+        if not only_first or not only_second:
+            return
+        cls = HexGrid if kind == "hex" else QuadGrid
+        lead, follow = only_first[len(what) % len(only_first)], only_second[(len(what) // 2) % len(only_second)]
+
+        def run():
+            grid = cls(np.array(pts, dtype=float), addressing)
+            _ = [float(c.quality) for c in grid.cells], [float(c.center[0]) for c in grid.cells], float(grid.quality)     # used once
+            grid.add_link(TranslationLink(np.array(pts[lead], dtype=float), np.array(pts[follow], dtype=float)))
+            out = []
+            for step in ([0.21, -0.13, 0.17], [-0.08, 0.19, 0.11]):
+                grid.update(lead, np.array(grid.points[lead], dtype=float) + np.array(step))
+                after = [float(c.quality) for c in grid.cells]
+                fresh = [float(c.quality) for c in cls(np.array(grid.points, dtype=float), addressing).cells]
+                out.append((after, fresh))
+            moved = float(np.linalg.norm(np.array(grid.points[follow]) - np.array(pts[follow])))
+            return out, moved
+        res = q_safe(run, what)
+        ctx.evaluated(f"linked-move:{what}")
+        if res is None:
+            return
+        out, moved = res
+        if moved < 0.1:
+            ctx.violation(f"linked-move:follower-still:{kind}", "the follower of a TranslationLink did not move with its leader", {"what": what})
+        for after, fresh in out:
+            for k in range(len(after)):
+                add("equal", f"linked-move:{what}", codes=[code(after[k]), code(fresh[k])], tol=50)
+
     for name, nb in cat["neighbours"].items():
         base = [list(map(float, cat["hex"][name.split("_")[0]][k])) for k in range(8)]
         nbr = [list(map(float, nb[k])) for k in range(8)]
         pts = base + [p for p in nbr if p not in base]
         moved_grid("hex", pts, [list(range(8)), [pts.index(p) for p in nbr]], f"hex+neighbour:{name}")
+        linked_move("hex", pts, [list(range(8)), [pts.index(p) for p in nbr]], f"hex+neighbour:{name}")
     for name, cell in cat["quad"].items():
         base = [list(map(float, cell[k])) for k in range(4)]
         # a neighbour across side 1-2: the quad translated by its edge 0 -> 1 (shares the two points only for parallelograms,
@@ -215,6 +251,7 @@ def run(ctx: Ctx) -> None:
         nbr = [[p[i] + shift[i] for i in range(3)] for p in base]
         pts = base + [p for p in nbr if p not in base]
         moved_grid("quad", pts, [list(range(4)), [pts.index(p) for p in nbr]], f"quad:{name}")
+        linked_move("quad", pts, [list(range(4)), [pts.index(p) for p in nbr]], f"quad:{name}")
     for name, cell in cat["quad"].items():
         base = [cell[k] for k in range(4)]
         point, vector, scale = similarity(rng)
